@@ -1,5 +1,6 @@
-(* C08 - refutations on the faithful model: the two races of the pinned code.  The witness schedules are real
-   executions of the implementation (corpus/C08). *)
+(* C08 - refutations on the faithful model: the race of the current code that is still open (late update).  The
+   witness schedules are real executions of the implementation (corpus/C08).  The stale-snapshot witness is gone: since
+   the repair c1c8ab8 freshness at quiescence is a theorem for all schedules (Fresh.v). *)
 From Coq Require Import List Arith Bool.
 Import ListNotations.
 Require Import FV.C08.Model FV.C08.Lemmas FV.C08.Silence FV.C08.Fresh.
@@ -15,55 +16,34 @@ Fixpoint all_enabled (nd : node) (s : state) (sched : list (tid * conn)) : bool 
 Definition one : node := [(true, [true])].
 Definition P00 : pid := (0, 0).
 
-(* activate racing with one update: the activation builds the message with the old value, the driver thread stores
-   and broadcasts the new value to the already registered connection, then the old message is sent last *)
-Definition stale_sched : list (tid * conn) :=
-  [(TU 0, 0); (TC 0, 0); (TC 0, 0); (TC 0, 0); (TC 0, 0); (TU 0, 0); (TU 0, 0); (TU 0, 0); (TC 0, 0); (TC 0, 0)].
-
-Lemma refuted_stale_snapshot :
-  exists nd cs us sched c p,
-    all_enabled nd (init cs us) sched = true /\
-    let s := run nd cs us sched in
-    listens s c p = true /\ exported nd p = true /\
-    u_pc (uth s 0) = UDone /\ c_pc (cth s c) = CRecv /\ c_script (cth s c) = [] /\
-    logs s c = [EReq (RAct SG false); EUpd p 1; EUpd p 0; ERep (RpActive SG)] /\
-    last_upd p (logs s c) = Some 0 /\ cache s p = 1.
-Proof.
-  exists one, [[RAct SG false]], [[(P00, 1)]], stale_sched, 0, P00. vm_compute. repeat split; reflexivity.
-Qed.
-
-(* the guard of the positive theorem is violated by exactly that schedule *)
-Lemma stale_sched_has_stale_send : ~ no_stale_send one (init [[RAct SG false]] [[(P00, 1)]]) stale_sched.
-Proof.
-  intros H. simpl in H. do 8 (destruct H as [_ H]). destruct H as [H _]. apply H.
-  exists 0, SG, P00, 0, []. vm_compute. repeat split; auto. discriminate.
-Qed.
-
-(* deactivate racing with a broadcast: listeners selected before, send after the 'inactive' reply *)
+(* deactivate racing with a broadcast: listeners selected before, send after the 'inactive' reply.
+   c0: start recv acquire:disp acquire:upd0 build send | u0: start acquire:upd0 build |
+   c0: send(active) recv acquire:disp send(inactive) | u0: send *)
 Definition late_sched : list (tid * conn) :=
-  [(TC 0, 0); (TC 0, 0); (TC 0, 0); (TU 0, 0); (TU 0, 0); (TU 0, 0); (TC 0, 0); (TC 0, 0); (TC 0, 0); (TC 0, 0);
-   (TC 0, 0); (TC 0, 0); (TU 0, 0)].
+  [(TC 0, 0); (TC 0, 0); (TC 0, 0); (TC 0, 0); (TC 0, 0); (TC 0, 0); (TU 0, 0); (TU 0, 0); (TU 0, 0);
+   (TC 0, 0); (TC 0, 0); (TC 0, 0); (TC 0, 0); (TU 0, 0)].
 
 Lemma refuted_late_update :
   exists nd cs us sched c p,
     all_enabled nd (init cs us) sched = true /\
     let s := run nd cs us sched in
     listens s c p = false /\
-    logs s c = [EReq (RAct SG false); EUpd p 1; ERep (RpActive SG); EReq (RDeact SG false); ERep RpInactive; EUpd p 1].
+    logs s c = [EReq (RAct SG false); EUpd p 0; ERep (RpActive SG); EReq (RDeact SG false); ERep RpInactive; EUpd p 1].
 Proof.
   exists one, [[RAct SG false; RDeact SG false]], [[(P00, 1)]], late_sched, 0, P00. vm_compute. repeat split; reflexivity.
 Qed.
 
 (* the same after a disconnect: the update is handed to a connection that was already removed *)
 Definition late_close_sched : list (tid * conn) :=
-  [(TC 0, 0); (TC 0, 0); (TC 0, 0); (TU 0, 0); (TU 0, 0); (TU 0, 0); (TC 0, 0); (TC 0, 0); (TC 0, 0); (TC 0, 0); (TU 0, 0)].
+  [(TC 0, 0); (TC 0, 0); (TC 0, 0); (TC 0, 0); (TC 0, 0); (TC 0, 0); (TU 0, 0); (TU 0, 0); (TU 0, 0);
+   (TC 0, 0); (TC 0, 0); (TU 0, 0)].
 
 Lemma refuted_late_update_after_close :
   exists nd cs us sched c p,
     all_enabled nd (init cs us) sched = true /\
     let s := run nd cs us sched in
     c_pc (cth s c) = CDone /\
-    logs s c = [EReq (RAct (SP 0 0) false); EUpd p 1; ERep (RpActive (SP 0 0)); EClose; EUpd p 1].
+    logs s c = [EReq (RAct (SP 0 0) false); EUpd p 0; ERep (RpActive (SP 0 0)); EClose; EUpd p 1].
 Proof.
   exists one, [[RAct (SP 0 0) false; RClose]], [[(P00, 1)]], late_close_sched, 0, P00. vm_compute. repeat split; reflexivity.
 Qed.
